@@ -209,4 +209,15 @@ def redistribute (requests : List Request) (survivors : List (List Role)) (leade
 def recreateGate (a : Actor) : Bool :=
   if a.singleton then !a.system else (!a.system && a.relocatable)
 
+/-! ### the snapshot builders (upstream end of the relocatable / system filter) -/
+
+/-- what both snapshot builders keep of an actor entry: `preShutdown` ranges over `localActors()`
+    (no reserved names) and skips `!IsRelocatable()`; `deriveRelocationSetFromRegistry` skips
+    non-relocatable records (reliable-delivery endpoints, kept for registry withdrawal, are not
+    modelled) and reserved names -/
+def snapshotKeep (a : Actor) : Bool := !a.system && a.relocatable
+
+/-- the `Actors` of the snapshot built from the population `pop` of the departed node (any order) -/
+def snapshotActors (pop : List Actor) : List Actor := pop.filter snapshotKeep
+
 end GoaktVerif.Model.C32
